@@ -132,6 +132,13 @@ func (e *Emitter) define(prefix, sort, term string) string {
 		return term
 	}
 	n := e.fresh(prefix)
+	if strings.Contains(term, "(ite ") {
+		// an opaque constant: names whose definition contains ite must not be macro-expanded
+		// into quantifier patterns (z3 rejects 'if' in patterns)
+		e.line(fmt.Sprintf("(declare-const %s %s)", n, sort))
+		e.line(fmt.Sprintf("(assert (= %s %s))", n, term))
+		return n
+	}
 	e.line(fmt.Sprintf("(define-fun %s () %s %s)", n, sort, term))
 	return n
 }
@@ -332,7 +339,8 @@ func (e *Emitter) rangeAssume(term string, t types.Type) string {
 	}
 	switch t.Underlying().(type) {
 	case *types.Slice:
-		return fmt.Sprintf("(and (<= 0 (s.off %s)) (<= 0 (s.len %s)) (<= (s.len %s) (s.cap %s)))", term, term, term, term)
+		// slice headers hold Go ints; an array never exceeds the address space
+		return fmt.Sprintf("(and (<= 0 (s.off %s)) (<= 0 (s.len %s)) (<= (s.len %s) (s.cap %s)) (<= (+ (s.off %s) (s.cap %s)) 281474976710656))", term, term, term, term, term, term)
 	case *types.Interface:
 		// the dynamic type implements the static interface type
 		return e.implementsTerm(fmt.Sprintf("(tagof %s)", term), t, true)
